@@ -988,7 +988,10 @@ class FortranReaderBase:
                 # statement (rather than the full line). Subsequent
                 # statements need to be processed into Line
                 # objects.
-                items.append(item.copy(cased_map(first.strip())))
+                first = cased_map(first.strip())
+                if first:
+                    items.append(item.copy(first))
+                # (Nothing stands in front of a ';' that starts the line.)
                 for line in split_line_iter:
                     # Any subsequent statements have not been processed
                     # before, so new Line objects need to be created.
@@ -1005,6 +1008,9 @@ class FortranReaderBase:
                             cased_map(line), item.span, label, name, item.reader
                         )
                         items.append(new_line)
+                if not items:
+                    # The line held nothing but ';'.
+                    return self._next(ignore_comments)
                 items.reverse()
                 for newitem in items:
                     self.fifo_item.appendleft(newitem)
